@@ -147,6 +147,7 @@ type ocspFacts struct {
 	tailNeedsStrict             bool
 	parseAttempts               []string
 	authRules                   []string
+	chainTrim                   string
 }
 
 // ---- filterHTTPOCSPServers ----------------------------------------------------------------
@@ -588,8 +589,13 @@ func (c *ctx) ocspIsRevoked(f *ocspFacts) {
 	}
 	f.cacheFirst = true
 	// candidates and servers
-	if s := next("chains"); !c.ocspAssignIs(s, "chains", "core.NewCertificateChains(verifiedChains,c.ocspConfig.TrustedResponderCerts)") {
-		fail("%s: IsRevoked: expected chains := core.NewCertificateChains(verifiedChains, c.ocspConfig.TrustedResponderCerts)", c.pos(s))
+	switch s := next("chains"); {
+	case c.ocspAssignIs(s, "chains", "core.NewCertificateChains(verifiedChains,c.ocspConfig.TrustedResponderCerts)"):
+		f.chainTrim = "ChainTrim.allPositions"
+	case c.ocspAssignIs(s, "chains", "core.NewCertificateChains(issuerChains(verifiedChains),c.ocspConfig.TrustedResponderCerts)"):
+		f.chainTrim = c.ocspIssuerChains()
+	default:
+		fail("%s: IsRevoked: expected chains := core.NewCertificateChains([issuerChains(]verifiedChains[)], c.ocspConfig.TrustedResponderCerts)", c.pos(s))
 	}
 	if s := next("candidates"); !c.ocspAssignIs(s, "certCandidates,err",
 		"core.FindCertificateIssuerCandidates(issuer,&clientCertificate.Extensions,clientCertificate.PublicKeyAlgorithm,chains)") {
@@ -764,6 +770,53 @@ func (c *ctx) ocspIsRevoked(f *ocspFacts) {
 	}
 }
 
+// ocspIssuerChains recognises
+//
+//	result := make([][]*x509.Certificate, 0, len(verifiedChains))
+//	for _, verifiedChain := range verifiedChains {
+//		if len(verifiedChain) > 1 { result = append(result, verifiedChain[1:]) } [else { result = append(result, verifiedChain) }]
+//	}
+//	return result
+func (c *ctx) ocspIssuerChains() string {
+	fd := c.funcDecl(ocspFile, "", "issuerChains")
+	b := fd.Body.List
+	if len(b) != 3 || !c.ocspAssignIs(b[0], "result", "make([][]*x509.Certificate,0,len(verifiedChains))") {
+		fail("%s: issuerChains: unexpected shape", c.pos(fd))
+	}
+	rs, ok := b[1].(*ast.RangeStmt)
+	if !ok || exprStr(rs.X) != "verifiedChains" || rs.Value == nil || exprStr(rs.Value) != "verifiedChain" || len(rs.Body.List) != 1 {
+		fail("%s: issuerChains: expected `for _, verifiedChain := range verifiedChains` with one statement", c.pos(b[1]))
+	}
+	ifs, ok := rs.Body.List[0].(*ast.IfStmt)
+	if !ok || ifs.Init != nil || exprStr(ifs.Cond) != "len(verifiedChain)>1" || len(ifs.Body.List) != 1 {
+		fail("%s: issuerChains: expected `if len(verifiedChain) > 1`", c.pos(rs))
+	}
+	// exprStr renders every slice expression as x[:]; check the bounds explicitly
+	as, ok := ifs.Body.List[0].(*ast.AssignStmt)
+	if !ok || len(as.Lhs) != 1 || exprStr(as.Lhs[0]) != "result" || len(as.Rhs) != 1 {
+		fail("%s: issuerChains: then-branch is not `result = append(result, verifiedChain[1:])`", c.pos(ifs))
+	}
+	call, ok := as.Rhs[0].(*ast.CallExpr)
+	if !ok || exprStr(call.Fun) != "append" || len(call.Args) != 2 || exprStr(call.Args[0]) != "result" {
+		fail("%s: issuerChains: then-branch is not an append to result", c.pos(ifs))
+	}
+	sl, ok := call.Args[1].(*ast.SliceExpr)
+	if !ok || exprStr(sl.X) != "verifiedChain" || sl.Low == nil || exprStr(sl.Low) != "1" || sl.High != nil || sl.Max != nil {
+		fail("%s: issuerChains: then-branch does not append verifiedChain[1:]", c.pos(ifs))
+	}
+	if r, ok := b[2].(*ast.ReturnStmt); !ok || len(r.Results) != 1 || exprStr(r.Results[0]) != "result" {
+		fail("%s: issuerChains: does not return result", c.pos(b[2]))
+	}
+	if ifs.Else == nil {
+		return "ChainTrim.dropFirstAlways"
+	}
+	eb, ok := ifs.Else.(*ast.BlockStmt)
+	if !ok || len(eb.List) != 1 || !c.ocspAssignIs(eb.List[0], "result", "append(result,verifiedChain)") {
+		fail("%s: issuerChains: else-branch is not `result = append(result, verifiedChain)`", c.pos(ifs))
+	}
+	return "ChainTrim.dropFirstKeepSingleton"
+}
+
 func (c *ctx) ocspProvision() {
 	fd := c.funcDecl(ocspFile, "OCSPRevocationChecker", "Provision")
 	found := false
@@ -806,11 +859,11 @@ func genOcsp(c *ctx, out string) {
 	c.ocspProvision()
 
 	l := newLean("Ocsp", "Crv.Ocsp")
+	l.p("open Crv.Ocsp in")
 	l.p("/-- ocsp/ocsprevocationchecker.go as the model's intermediate representation (see Crv/Ocsp.lean `Facts`):")
 	l.p("filterHTTPOCSPServers, maxClockSkew (ms), IsRevoked (cache key, cache first, loops, failure branches, revoked test,")
 	l.p("cache.Add guard and value, tail condition), calculateEvictionTime, tryGetResponseFromCache, parseOcspResponse,")
 	l.p("isAuthorizedResponder. -/")
-	l.p("open Crv.Ocsp in")
 	l.p("def ocspFacts : Crv.Ocsp.Facts :=")
 	l.p("  { httpPrefix := %s", ocspCharList(f.httpPrefix))
 	l.p("    filterLowercases := %s", ocspBool(f.filterLowercases))
@@ -828,13 +881,14 @@ func genOcsp(c *ctx, out string) {
 	l.p("    tailLenOf := %s", f.tailLenOf)
 	l.p("    tailNeedsStrict := %s", ocspBool(f.tailNeedsStrict))
 	l.p("    parseAttempts := [%s]", strings.Join(f.parseAttempts, ", "))
-	l.p("    authRules := [%s] }", strings.Join(f.authRules, ", "))
+	l.p("    authRules := [%s]", strings.Join(f.authRules, ", "))
+	l.p("    chainTrim := %s }", f.chainTrim)
 	l.write(out)
 	c.facts["ocsp"] = map[string]interface{}{
 		"httpPrefix": f.httpPrefix, "filterLowercases": f.filterLowercases, "maxClockSkewMs": f.maxClockSkewMs,
 		"keyParts": f.keyParts, "loopOrder": f.loopOrder, "onFetchErr": f.onFetchErr, "onParseErr": f.onParseErr,
 		"addGuard": f.addGuard, "tailLenOf": f.tailLenOf, "tailNeedsStrict": f.tailNeedsStrict,
-		"parseAttempts": f.parseAttempts, "authRules": f.authRules, "validUntilChecked": f.validUntilChecked,
+		"parseAttempts": f.parseAttempts, "authRules": f.authRules, "validUntilChecked": f.validUntilChecked, "chainTrim": f.chainTrim,
 		"usesParseForCert":    len(f.parseAttempts) > 0 && !strings.Contains(strings.Join(f.parseAttempts, ";"), "passesCert := false"),
 		"firstParseIssuerNil": len(f.parseAttempts) > 0 && strings.Contains(f.parseAttempts[0], "passesIssuer := false"),
 	}
